@@ -132,7 +132,7 @@ def r1(repo, chk):
             hs = rd.enclosing_handlers(p)
             for h in hs:
                 hn = rd.cfg.handler_node[h]
-                tests = [st for st in rd.stmts(lambda s: isinstance(s, ast.If)) if "END_STATES" in norm(st.test) and "_close_pending" in norm(st.test) and any(isinstance(x, ast.Return) for x in st.body)]
+                tests = [st for st in rd.stmts(lambda s: isinstance(s, ast.If)) if "_close_pending" in norm(st.test) and any(isinstance(x, ast.Return) for x in st.body)]
                 tn = {rd.cfg.begin[t] for t in tests}
                 if rd.cfg.reaches(hn, rd.cfg.node_of(c), avoid=tn):
                     ok = False
